@@ -1408,6 +1408,31 @@ def hosts_overridable_defaults():
         h.inp("x", F, (3,)); h.c("w", np.ones((2, 3), dtype=np.float32), "input")
         h.n("Shape", ["w"], "z"); h.n("Relu", ["x"], "y"); h.out_types = {"z": (I64, [2]), "y": (F, [3])}; h.out("z", "y")
     host("Shape(w) of an overridable w that is otherwise unused", shape_of_default)
+
+    # operands that shipped REWRITE RULES read as constants (Slice bounds, Unsqueeze axes, Reshape targets): overridable here
+    big = 2**62
+    for which in ("starts", "ends", "steps"):
+        def slice_ops(h, which=which):
+            h.inp("x", F, (5,))
+            for nm, v in (("st", 0), ("en", big), ("ax", 0), ("sp", 1)):
+                h.c(nm, np.array([v], dtype=np.int64), "input" if {"st": "starts", "en": "ends", "sp": "steps"}.get(nm) == which else "init")
+            h.n("Slice", ["x", "st", "en", "ax", "sp"], "z"); h.out_types = {"z": (F, ["a"])}; h.out("z")
+        host(f"Slice(x[5], 0, 2**62, 0, 1) with overridable {which}", slice_ops)
+
+    def unsq_axes(h):
+        h.inp("x", F, (3,)); h.c("a1", np.array([0], dtype=np.int64), "input"); h.c("a2", np.array([1], dtype=np.int64))
+        h.n("Unsqueeze", ["x", "a1"], "u"); h.n("Unsqueeze", ["u", "a2"], "z"); h.out_types = {"z": (F, ["a", "b", "c"])}; h.out("z")
+    host("Unsqueeze(Unsqueeze(x, a1={0}), [1]) with overridable a1", unsq_axes)
+
+    def reshape_reshape(h):
+        h.inp("x", F, (2, 6)); h.c("s1", np.array([4, 3], dtype=np.int64)); h.c("s2", np.array([3, 4], dtype=np.int64), "input")
+        h.n("Reshape", ["x", "s1"], "t"); h.n("Reshape", ["t", "s2"], "z"); h.out_types = {"z": (F, ["a", "b"])}; h.out("z")
+    host("Reshape(Reshape(x, [4,3]), s2={3,4}) with overridable s2", reshape_reshape)
+
+    def expand_binary(h):
+        h.inp("x", F, (1, 3)); h.inp("y", F, (2, 3)); h.c("s", np.array([2, 3], dtype=np.int64), "input")
+        h.n("Expand", ["x", "s"], "e"); h.n("Add", ["e", "y"], "z"); h.out_types = {"z": (F, ["a", "b"])}; h.out("z")
+    host("Add(Expand(x[1,3], s={2,3}), y[2,3]) with overridable s", expand_binary)
     return out
 
 
